@@ -36,7 +36,8 @@ package pubsub
 // The router forwards stream-close events to the gater and (for peers speaking a protocol with
 // extensions) to the extension state.
 //@ func (*GossipSubRouter).OnClosedIncomingStream
-//@   property C13
+//@   property C13 C12
+//@   safe
 //@   requires extensions-state: gs.extensions != nil && gs.extensions.peerExtensions != nil
 //@   noframe
 //@   ensures gater-told: old(gs.gate) != nil ==> calls((*peerGater).OnClosedIncomingStream) == old(calls((*peerGater).OnClosedIncomingStream)) + 1 && lastarg((*peerGater).OnClosedIncomingStream, 1) == pid
